@@ -1,3 +1,4 @@
+import PybropsModel.Drv.C01
 import PybropsModel.Drv.C02
 import PybropsModel.Drv.C11
 import PybropsModel.Drv.C13
@@ -6,6 +7,7 @@ import PybropsModel.Drv.C20
 
 namespace Drv
 def allOps : List (String × J.Op) := List.flatten [
+  Drv.C01.ops,
   Drv.C02.ops,
   Drv.C11.ops,
   Drv.C13.ops,
